@@ -8,6 +8,11 @@
 // sentinel_answered, sig (structural signature: panic message without numbers
 // and the innermost scion-time frames; for a hang the frames of the spinning
 // goroutine).
+//
+// A case with c.il = "yes" is a client history (hist_test.go): the record stands for all calls of the
+// history and the sentinel call on the same client value; hq / hn / hr are what was seen of it.
+// A case whose datagram has a burst class g.bu is preceded by that burst (burst_test.go); bsent /
+// bval / bans / bms describe the burst.
 package c08
 
 import (
@@ -31,6 +36,8 @@ type tcase struct {
 	Id  int             `json:"id"`
 	Mut int             `json:"mut"` // number of byte-level mutants to add (thorough)
 	C   json.RawMessage `json:"c"`
+	// the burst composition (RobustBurst.tla) that realises the burst class g.bu of the case
+	Burst []bsend `json:"burst"`
 }
 
 type rec struct {
@@ -45,6 +52,16 @@ type rec struct {
 	Lane     int             `json:"lane"`
 	Hex      string          `json:"hex"` // concrete input (first 96 bytes) of crashing / hanging inputs
 	Ms       int             `json:"ms"`  // wall time spent on this input
+	// client histories: kind of every request seen, requests per call, result per call
+	Hq []string `json:"hq"`
+	Hn []int    `json:"hn"`
+	Hr []string `json:"hr"`
+	// bursts: datagrams sent / well-formed requests sent / of these answered / client addresses used, wall time
+	Baddr int `json:"baddr"`
+	Bsent int `json:"bsent"`
+	Bval  int `json:"bval"`
+	Bans  int `json:"bans"`
+	Bms   int `json:"bms"`
 }
 
 const (
@@ -65,7 +82,8 @@ type lane struct {
 	ntp, alt, other                 *net.UDPConn
 	cs319, cs320, csOther           *net.UDPConn
 	scFwd, scHop                    *net.UDPConn // forward target; first hop of the SCION client
-	seq                             int
+	seq, hseq                       int
+	bseq                            uint32 // burst source addresses used so far
 	restarts                        int
 	t                               *testing.T
 	stalls                          int
@@ -364,7 +382,14 @@ func (l *lane) runSrv(tc *tcase, c *acase, out emitter) {
 	}
 	g := &c.Rs[0]
 	b, _ := l.srvBytes(g)
-	out.Emit(l.sendSrv(b, tc.Id, tc.C, "abstract"))
+	bst, br, died := l.burstBefore(tc, "ipsrv", g.Bu, l.burstIP(b))
+	if died {
+		out.Emit(br)
+		return
+	}
+	r := l.sendSrv(b, tc.Id, tc.C, "abstract")
+	r.Bsent, r.Bval, r.Bans, r.Baddr, r.Bms = int(bst.sent), int(bst.val), int(bst.ans), int(bst.addr), bst.ms
+	out.Emit(r)
 	for i := 0; i < tc.Mut; i++ {
 		if err := l.ensureSrv(); err != nil {
 			return
@@ -507,6 +532,9 @@ func (l *lane) cliResponse(g *dgram, req []byte, auth bool, sess *session) []byt
 	hdr[0], hdr[1] = m[0], m[1]
 	if g.Org == "other" {
 		// random origin
+	} else if g.Org == "ileave" && len(req) >= 48 {
+		// an interleaved-mode response: the origin is the request's receive timestamp
+		copy(hdr[24:32], req[32:40])
 	} else if len(req) >= 48 {
 		copy(hdr[24:32], req[40:48])
 	}
@@ -517,6 +545,9 @@ func (l *lane) cliResponse(g *dgram, req []byte, auth bool, sess *session) []byt
 	binary.BigEndian.PutUint32(hdr[44:], frac)
 	if g.Ts == "neg" {
 		binary.BigEndian.PutUint32(hdr[40:], sec-2)
+	}
+	if g.Ts == "old" { // before anything a server could have received from this client
+		binary.BigEndian.PutUint32(hdr[40:], sec-30)
 	}
 	var uid []byte
 	if auth && len(req) >= 84 && g.Uidm != "no" {
@@ -1107,6 +1138,15 @@ func (g *stallGuard) Emit(r any) {
 	if ok {
 		x.Ms = int(time.Since(g.t0).Milliseconds())
 		g.t0 = time.Now()
+		if x.Hq == nil { // (TLC cannot read null)
+			x.Hq = []string{}
+		}
+		if x.Hn == nil {
+			x.Hn = []int{}
+		}
+		if x.Hr == nil {
+			x.Hr = []string{}
+		}
 		r = x
 	}
 	g.out.Emit(r)
@@ -1165,7 +1205,11 @@ func TestC08(t *testing.T) {
 					case "ipsrv":
 						l.runSrv(tc, &c, sg)
 					case "ipcli":
-						l.runCli(tc, &c, sg)
+						if c.Il == "yes" {
+							l.runHist(tc, &c, sg, l.histIP())
+						} else {
+							l.runCli(tc, &c, sg)
+						}
 					case "kesrv":
 						l.runKeSrv(tc, &c, sg)
 					case "csptpsrv":
@@ -1175,7 +1219,11 @@ func TestC08(t *testing.T) {
 					case "scsrv":
 						l.runScSrv(tc, &c, sg)
 					case "sccli":
-						l.runScCli(tc, &c, sg)
+						if c.Il == "yes" {
+							l.runHist(tc, &c, sg, l.histSCION())
+						} else {
+							l.runScCli(tc, &c, sg)
+						}
 					default:
 						t.Errorf("unknown kind %q", c.Kind)
 					}
